@@ -25,7 +25,7 @@ MANIFEST = {
     'technique': 'deductive: VCs from the real AST of Trajectory.filter / drift / apply_drift_correction with loop invariants, induction lemmas '
                  'for the mean; z3; native replay on synthetic multi-species trajectories; random stand-in',
 }
-UNITS = ['unit_filter', 'unit_drift', 'unit_apply', 'unit_lemmas']
+UNITS = ['unit_filter', 'unit_drift', 'unit_apply', 'unit_lemmas', 'unit_plumbing']
 BOUNDED = ['bounded_drift', 'bounded_purity']
 META = {'clauses': {'C13.sel': 'P', 'C13.mean': 'P', 'C13.zero': 'P (lemma)', 'C13.frame': 'P', 'C13.idem': 'P (lemma)', 'C13.rigid': 'P (lemma, strict minimum image)'},
         'not_decided': ['round-off of the mean (A-REAL)']}
@@ -505,6 +505,15 @@ def replay_drift(inputs):
         cf = tr.apply_drift_correction(floating_species=['Li'])
         if not np.allclose(cf.displacements, dc, atol=1e-12, equal_nan=False):
             bad.append('floating=Li is not equivalent to fixed=all others')
+        # a trajectory obtained from this one (the later frames / the second half): corrected like any other trajectory - its own first frame is
+        # kept, the reference atoms of the result do not move on average
+        for name, sub, k0 in (('[3:]', tr[3:], 3), ('split(2)[1]', tr.split(2)[1], int(np.linspace(0, len(tr) - 1, 3, dtype=int)[1]))):
+            cs = sub.apply_drift_correction(fixed_species=fixed)
+            own = np.mod(base_pos[k0] + g[k0], 1)
+            if not np.allclose(((np.asarray(cs.positions[0]) - own) + 0.5) % 1 - 0.5, 0, atol=1e-9):
+                bad.append(f'correction of trajectory{name}: the first frame of the result is not the first frame of that trajectory')
+            if np.abs(np.asarray(cs.displacements)[:, mask_fixed].mean(axis=1)).max() > 1e-12:
+                bad.append(f'correction of trajectory{name}: the reference species still drift')
     except Exception as e:
         bad.append(f'apply_drift_correction raised {type(e).__name__}: {e}')
     return {'reproduced': bool(bad), 'detail': f'seed={seed} species class={cls} symbols={symbols}: ' + '; '.join(bad[:5])}
@@ -532,3 +541,11 @@ from verif.native.purity import make_bounded as _make_purity  # noqa: E402
 from verif.props.purity_reg import REG as _PURITY_REG  # noqa: E402
 PURITY = _PURITY_REG['C13']
 bounded_purity = _make_purity('C13', PURITY)
+
+
+# plumbing around the anchored functions: forwarding contracts of the public wrappers, no state shared between calls or objects
+from verif.props import plumbing as _plumbing  # noqa: E402
+
+
+def unit_plumbing(tier):
+    return _plumbing.unit_plumbing(PROPERTY)
